@@ -283,6 +283,14 @@ def rand_decl(rng):
         sig.append("**kw")
     fopts = "@utype.parse" + ("(options=Options(collect_errors=True))" if rng.random() < 0.15 else "")
     src += "%s\ndef %s_fn(%s):\n    return dict(%s)\n" % (fopts, tag, ", ".join(sig), ", ".join("%s=%s" % (p[0], p[0]) for p in params))
+    # the other call shapes, each with its own wrapper (and per-call context) in the library
+    gopts = rng.choice(["@utype.parse", "@utype.parse", "@utype.parse(options=Options(collect_errors=True))", "@utype.parse(eager=True)"])
+    dv = r_ints(rng)
+    src += ("import typing\n%s\ndef %s_gen(n: int = 2, item: List[int] = %r) -> typing.Iterator[int]:\n"
+            "    for i in range(n):\n        yield (i if i < 3 else 'bad')\n    item.append(n)\n" % (gopts, tag, dv))
+    src += ("%s\nasync def %s_afn(n: int = 2, item: List[int] = %r) -> int:\n    item.append(n)\n    return n + len(item)\n" % (gopts.replace("(eager=True)", ""), tag, dv))
+    src += ("%s\nasync def %s_agen(n: int = 2, item: List[int] = %r) -> typing.AsyncIterator[int]:\n"
+            "    for i in range(n):\n        yield (i if i < 3 else 'bad')\n    item.append(n)\n" % (gopts.replace("(eager=True)", ""), tag, dv))
     return dict(tag=tag, src=src, shared=shared, fields=fields, params=params, nested=nested, okw=okw, var_kw="**kw" in sig)
 
 
@@ -435,7 +443,7 @@ def aliasing_oracle(i_seed):
 # --------------------------------------------------------------------------------------------
 def plan_call(rng, d):
     """(kind, seed): the input is rebuilt from the seed wherever the call runs"""
-    return (rng.choice(["init", "init", "from", "from-json", "fn", "fn", "setattr"]), rng.getrandbits(32))
+    return (rng.choice(["init", "init", "from", "from-json", "fn", "fn", "setattr", "gen", "gen", "afn", "agen"]), rng.getrandbits(32))
 
 
 def build_input(d, kind, seed):
@@ -468,6 +476,12 @@ def build_input(d, kind, seed):
             except TypeError:
                 return data
         return data
+    if kind in ("gen", "afn", "agen"):
+        n = rng.choice([0, 1, 2, 2, 5, "3", "x", -1, None])
+        kw = {}
+        if rng.random() < 0.4:
+            kw["item"] = rng.choice([[1, 2], ["4"], ["x"], 5, []])
+        return ([n] if rng.random() < 0.6 else [], kw) if n is not None else ([], kw)
     args, kwargs = [], {}
     for name, t, how, positional in d["params"]:
         if rng.random() < 0.55:
@@ -493,6 +507,17 @@ def do_call(K, fn, d, kind, inp, state):
             for k, v in inp.items():
                 if k.startswith("f") or k in ("inner", "inners"):
                     setattr(r, k, v)
+        elif kind == "gen":
+            r = list(dyn.get(d["tag"] + "_gen")(*inp[0], **inp[1]))
+        elif kind == "afn":
+            import asyncio
+            r = asyncio.run(dyn.get(d["tag"] + "_afn")(*inp[0], **inp[1]))
+        elif kind == "agen":
+            import asyncio
+
+            async def drive():
+                return [v async for v in dyn.get(d["tag"] + "_agen")(*inp[0], **inp[1])]
+            r = asyncio.run(drive())
         else:
             r = fn(*inp[0], **inp[1])
         state.append(r)
@@ -595,7 +620,8 @@ def main(tier, seed):
             if o[0] != "ok":
                 bad.append(o)
     res.add_suite("history", n, n, ["seeded declarations as above, 4-8 calls each"],
-                  "call sequences mixing constructor, __from__ (dict / JSON text), function calls and attribute assignment with valid and "
+                  "call sequences mixing constructor, __from__ (dict / JSON text), plain / generator / async / async-generator function calls "
+                  "(default, collect_errors and eager options; rejected arguments and rejected yields) and attribute assignment with valid and "
                   "invalid inputs over nested containers; results written into between calls; each outcome (value with exact types, or "
                   "error type and message) compared with the same call made first in a freshly forked process; each input compared "
                   "with its deep snapshot",
